@@ -886,7 +886,9 @@ def check_plate_transfer(src, dst, quantity, result, exc, op):
                 mism = ('destination', k, d, got, exp_dst[k])
                 break
     if mism:
-        M.violate(['C07'], 'WELLWISE', f'C07:well_ne_standalone_operation:transfer:{form}:{mism[0]}',
+        # a well whose *amounts* differ from the stand-alone transfer did not give / receive the requested aliquot (C02 too)
+        amounts_differ = not str(mism[2]).startswith('name/capacity')
+        M.violate(['C07', 'C02'] if amounts_differ else ['C07'], 'WELLWISE', f'C07:well_ne_standalone_operation:transfer:{form}:{mism[0]}',
                   {'role': mism[0], 'k': mism[1], 'diff': mism[2], 'got': F.snap_contents(mism[3]),
                    'expected': F.snap_contents(mism[4]), 'quantity': quantity, 'form': form,
                    'src_idx': src_idx, 'dst_idx': dst_idx})
